@@ -117,7 +117,7 @@ def run(ctx):
     r = ctx.rng.fork("c12")
     cases = dsgen.load_corpus("C12")
     ctx.cov["corpus_cases"] = len(cases)
-    nrand = 400 if ctx.quick else 3000
+    nrand = 1500 if ctx.quick else 6000
     cases += [[gen_op(ctx, r)] for _ in range(nrand)]
     if not ctx.quick:
         # all (n, k, batch size) triples with n <= 24
